@@ -173,6 +173,16 @@ def compile_dropping_rejected(wd, tag, tutext, roots):
             bad = {b for b in bad if b in roots and b not in dropped}
             if not bad:
                 raise
+            # a failing template instantiation is reported once: entries of the same operation family (shuffle_*, rotate_*, ...) for the same
+            # element type and architecture share it, so they are dropped together instead of being discovered one compile at a time
+            fam = set()
+            for b in bad:
+                m = re.match(r"^e_([a-z]+)_[A-Za-z0-9_]*__([a-z0-9]+)__([a-z0-9_]+)$", b)
+                if m:
+                    fam.add((m.group(1), m.group(2), m.group(3)))
+            more = {r for r in roots if r not in dropped and r not in bad and
+                    any(r.startswith("e_%s_" % f[0]) and r.endswith("__%s__%s" % (f[1], f[2])) for f in fam)}
+            bad |= more
             dropped += sorted(bad)
             lines = [l for l in lines if not any(('void %s(' % b) in l for b in bad)]
     raise Infra("extraction TU still does not compile after dropping rejected entries")
